@@ -292,6 +292,12 @@ class Taint:
                         if tj['k'] == 'switch' and tj['op']['k'] in ('copy', 'move') and not tj['op']['pl']['p'] \
                                 and tj['op']['pl']['l'] in holders and tj['op']['pl']['l'] != d:
                             res.setdefault(bj, []).append((k, None, False))
+                        # `if T::try_from(x).is_err() { refuse }`
+                        if tj['k'] == 'call' and 'q' in tj['callee'] and callee_q(tj).endswith(('Result::is_err', 'Result::is_ok')) and tj['args'] \
+                                and not tj['dest']['p']:
+                            ab = b.base_of(tj['args'][0])
+                            if ab and ab[0] == d and not ab[1]:
+                                self._bool_dispatches(b, tj['dest']['l'], res, (k, None, False))
             if t['k'] == 'call' and 'q' in t['callee'] and len(t['args']) == 2 and not t['dest']['p'] and \
                     t['callee']['q'] in ('core::cmp::Ord::cmp', 'core::cmp::PartialOrd::partial_cmp'):
                 # `match a.cmp(&b) { Less => .., Equal => .., Greater => .. }` is a comparison of a with b
@@ -317,6 +323,31 @@ class Taint:
                         tj = b.blocks[bj]['term']
                         if tj['k'] == 'switch' and tj['op']['k'] in ('copy', 'move') and not tj['op']['pl']['p'] and tj['op']['pl']['l'] in holders:
                             res.setdefault(bj, []).extend(ents)
+            if t['k'] == 'call' and 'q' in t['callee'] and len(t['args']) == 2 and not t['dest']['p'] and \
+                    callee_q(t).split('::')[-1] == 'contains' and 'ops::range::Range' in callee_q(t):
+                # `(lo..=hi).contains(&x)` is the comparison of x with both ends
+                base = b.base_of(t['args'][1])
+                if base:
+                    k = ('P', base[0], tuple(x[1] for x in base[1]), ()) if base[1] else self.vkey(b, {'k': 'copy', 'pl': {'l': base[0], 'p': []}})
+                    lo = self._range_low(b, t['args'][0])
+                    self._bool_dispatches(b, t['dest']['l'], res, (k, None, lo is not None and lo >= 1))
+            if t['k'] == 'call' and 'q' in t['callee'] and len(t['args']) == 2 and not t['dest']['p'] and \
+                    callee_q(t).split('::')[-1] in ('get', 'get_mut') and (callee_q(t).startswith('[T]::') or 'slice' in callee_q(t) or 'Vec' in callee_q(t)) and \
+                    b.lty(t['dest']['l']).get('adt') == 'core::option::Option':
+                # `match list.get(i) { Some(..) => .., None => .. }`: the dispatch on the result is a bounds check of i
+                k = self.vkey(b, t['args'][1])
+                if k:
+                    d = t['dest']['l']
+                    holders = {d}
+                    for bj in b.live:
+                        for st in b.blocks[bj]['stmts']:
+                            if st['k'] == 'assign' and not st['pl']['p'] and st['rv']['k'] == 'discr' and not st['rv']['pl']['p'] \
+                                    and st['rv']['pl']['l'] in holders:
+                                holders.add(st['pl']['l'])
+                        tj = b.blocks[bj]['term']
+                        if tj['k'] == 'switch' and tj['op']['k'] in ('copy', 'move') and not tj['op']['pl']['p'] \
+                                and tj['op']['pl']['l'] in holders and tj['op']['pl']['l'] != d:
+                            res.setdefault(bj, []).append((k, None, False))
             if t['k'] == 'call' and 'q' in t['callee'] and callee_q(t).endswith(('::is_empty',)) and t['args']:
                 nb = t['t']
                 if nb is not None and b.blocks[nb]['term']['k'] == 'switch':
@@ -324,6 +355,39 @@ class Taint:
                     res.setdefault(nb, []).append((('LEN', base[0], tuple(x[1] for x in base[1])), None, True))
         self.san_cache[b.id] = res
         return res
+
+    def _range_low(self, b, op):
+        """lower end of a range value built from constants (None if unknown)"""
+        base = b.base_of(op)
+        if not base:
+            return None
+        for d in b.defs().get(base[0], []):
+            if d[0] == 'call' and 'q' in d[1]['callee'] and callee_q(d[1]).endswith('RangeInclusive::new') and d[1]['args'] and \
+                    d[1]['args'][0]['k'] == 'const':
+                return d[1]['args'][0].get('int')
+            if d[0] == 'assign' and d[1]['rv']['k'] == 'agg' and 'Range' in (d[1]['rv'].get('adt') or '') and d[1]['rv']['ops'] and \
+                    d[1]['rv']['ops'][0]['k'] == 'const':
+                return d[1]['rv']['ops'][0].get('int')
+        return None
+
+    def _bool_dispatches(self, b, l, res, ent):
+        """register a comparison entry at every switch on (a negation / copy of) the boolean in local l"""
+        holders = {l}
+        grew = True
+        while grew:
+            grew = False
+            for bj in b.live:
+                for st in b.blocks[bj]['stmts']:
+                    if st['k'] == 'assign' and not st['pl']['p'] and st['pl']['l'] not in holders:
+                        rv = st['rv']
+                        src = rv.get('a') if rv['k'] == 'unop' else rv.get('op') if rv['k'] == 'use' else None
+                        if isinstance(src, dict) and src.get('k') in ('copy', 'move') and not src['pl']['p'] and src['pl']['l'] in holders:
+                            holders.add(st['pl']['l'])
+                            grew = True
+        for bj in b.live:
+            tj = b.blocks[bj]['term']
+            if tj['k'] == 'switch' and tj['op']['k'] in ('copy', 'move') and not tj['op']['pl']['p'] and tj['op']['pl']['l'] in holders:
+                res.setdefault(bj, []).append(ent)
 
     def bound_ok(self, b, other, block, depth):
         """is the other side of a comparison a usable bound: a constant, an untainted value, a length, or a value
@@ -794,13 +858,33 @@ class Taint:
     def place_desc(self, b, pl, depth=0):
         base = b.base_of_place(pl)
         s = self.local_desc(b, base[0], depth + 1)
+        fields = list(base[1])
+        if s == 'env' and fields and b.raw['kind'] == 'Closure' and depth < 4:
+            # a captured variable is what the enclosing function captured: described there, so that moving a site into (or out
+            # of) a nested closure does not change what identifies it
+            cap = self._captured(b, fields[0][1])
+            if cap is not None:
+                s = cap
+                fields = fields[1:]
         if getattr(self, '_roles', False):
-            s += ''.join('.' + self.field_tag(x[0], x[1]) for x in base[1])
+            s += ''.join('.' + self.field_tag(x[0], x[1]) for x in fields)
         else:
-            s += ''.join('.' + str(x[1]) for x in base[1])
+            s += ''.join('.' + str(x[1]) for x in fields)
         if any(p['k'] in ('index', 'constindex', 'subslice') for p in pl['p']):
             s += '[]'
         return s
+
+    def _captured(self, b, idx):
+        par = self.f.bodies.get(b.raw.get('parent') or '')
+        if par is None or not isinstance(idx, int):
+            return None
+        for bi in par.live:
+            for st in par.blocks[bi]['stmts']:
+                if st['k'] == 'assign' and st['rv']['k'] == 'agg' and st['rv'].get('ak') in ('closure', 'coroutine') and st['rv'].get('body') == b.id \
+                        and idx < len(st['rv']['ops']):
+                    d = self.describe(par, st['rv']['ops'][idx], 3)
+                    return d if d and d not in ('var', 'tmp', 'None') else None
+        return None
 
     def describe(self, b, o, depth=0):
         if o['k'] in ('copy', 'move'):
